@@ -32,13 +32,19 @@ func introspectionOps(w *gql.World, pick func(n int) int) clientReq {
 		`{ __schema { queryType { name } mutationType { name } } }`,
 		`{ __schema { types { name kind } } }`,
 		fmt.Sprintf(`{ __type(name: %q) { name kind fields { name type { name kind ofType { name kind } } } } }`, tn),
-		fmt.Sprintf(`query($n: String!) { __type(name: $n) { name possibleTypes { name } enumValues { name } inputFields { name } } }`),
+		`query($n: String!) { __type(name: $n) { name possibleTypes { name } enumValues { name } inputFields { name } } }`,
 		`{ __schema { directives { name locations args { name } } } }`,
+		// several root fields, all depending on the variables of this operation
+		`query($n: String!, $d: Boolean) { a: __type(name: $n) { name kind } b: __type(name: $n) { name fields(includeDeprecated: $d) { name } } __schema { queryType { name } } c: __type(name: $n) { kind name } }`,
+		`query($n: String!) { __schema { queryType { name } } t: __type(name: $n) { name kind } }`,
 	}
 	i := pick(len(qs))
 	r := clientReq{Query: qs[i]}
-	if i == 3 {
+	switch i {
+	case 3, 6:
 		r.Variables = map[string]interface{}{"n": tn}
+	case 5:
+		r.Variables = map[string]interface{}{"n": tn, "d": pick(2) == 0}
 	}
 	return r
 }
@@ -162,7 +168,8 @@ func scenBAT(s *sched.Sim, cfg Config, res *Result) {
 				el.kind = "query"
 				el.op = gql.GenOp(s.T, w, w.Union, ast.Query, of, 4, 16)
 			}
-		case c == 6:
+		case c == 6 || (c == 9 && len(els) > 0 && els[len(els)-1].kind == "introspection"):
+			// (introspection operations tend to come in bursts: tools send several at once)
 			el.kind = "introspection"
 			el.req = introspectionOps(w, s.T.Choose)
 		case c == 7:
